@@ -137,6 +137,7 @@ type retState struct {
 
 // Exec verifies one function against its contract.
 type Exec struct {
+	lastVarargs []rawArg // the variadic arguments of the call being evaluated, before boxing
 	w                 *World
 	ctx               *Ctx
 	fn                *FuncInfo
@@ -199,6 +200,12 @@ type Exec struct {
 
 type Options struct {
 	NilDeref bool
+}
+
+// rawArg: a variadic argument before its conversion to the parameter's element type.
+type rawArg struct {
+	t   Term
+	typ types.Type
 }
 
 func newExec(w *World, fn *FuncInfo, c *Contract) *Exec {
